@@ -264,6 +264,9 @@ import (
 //@   requires len(s) > 16
 //@   ensures  mem32(s, 12) == next && mem8(s, 16) % 2 == 1 && mem8(s, 16) / 2 == old(mem8(s, 16)) / 2
 //@   modifies s[12:17]
+// linkNext@conc (publication order, per store): the step that makes the hasNext flag visible finds the link
+// already in place, so a thread that reads the flag and then the link (pop) never follows a stale link
+//@   guarantee[C01@conc,C02@conc] old(mem8(s, 16)) % 2 == 0 && mem8(s, 16) % 2 == 1 ==> mem32(s, 12) == next
 
 // update stamps the unread window (size, start) and the link to the next slice into the shared header
 //@ func (*bufferSlice).update
@@ -542,6 +545,8 @@ import (
 //@   requires c.callback != nil
 //@   preserves wfConn(c)
 //@   loop 0 invariant wfConn(c) && c.callback != nil
+//@   at call? onEventData#0 check sameMem(a1, c.readBuffer, c.readStartOff) && len(a1) == c.readEndOff - c.readStartOff      // the callback sees exactly the window [start,end): the unconsumed bytes followed by the new ones
+//@   at call? onEventData#1 check sameMem(a1, c.readBuffer, c.readStartOff) && len(a1) == c.readEndOff - c.readStartOff
 
 // ghost sent: bytes the kernel accepted so far; every syscall submits data[written:], so written == sent
 // means data[0:written) has been submitted exactly once and in order
